@@ -206,10 +206,18 @@ class Stats:
             self.counters[l] = self.counters.get(l, 0) + c
         self.excluded += other.excluded
         self.unique_nontrivial += other.unique_nontrivial
+        if hasattr(other, "first_harness_exception") and not hasattr(self, "first_harness_exception"):
+            self.first_harness_exception = other.first_harness_exception
         if len(self.first) < 2:
             self.first = (self.first + other.first)[:2]
         if other.last:
             self.last = other.last
+
+
+def note_harness_exception(stats, ctx, e):
+    ctx.count("harness_exceptions")
+    if not hasattr(stats, "first_harness_exception"):
+        stats.first_harness_exception = f"{type(e).__name__}: {e}\n" + "".join(traceback.format_exception(type(e), e, e.__traceback__)[-6:])
 
 
 # ------------------------------------------------------------------ shard runners
@@ -229,6 +237,10 @@ def _hypothesis_shard(mod, tier, seed, shard, n, excluded, shrink):
             last["case"] = case
             try:
                 mod.check_case(case, ctx)
+            except Violation:
+                raise
+            except Exception as e:  # a bug of the harness on this case: inconclusive, counted, never a verdict
+                note_harness_exception(stats, ctx, e)
             finally:
                 stats.record(case, ctx)
 
@@ -268,6 +280,8 @@ def _enumerated_shard(mod, tier, seed, shard, nshards, excluded):
         except Violation as v:
             found.append((v.signature, v.message, case))
             excluded.add(v.signature)
+        except Exception as e:
+            note_harness_exception(stats, ctx, e)
         stats.record(case, ctx)
     return stats, found
 
@@ -349,9 +363,15 @@ def run_property(prop, tier, seed, workers=None, examples=None, shrink=None):
         f"distinct_nontrivial={n_nontrivial} excluded={total.excluded} violations={len(by_sig)} wall={wall:.1f}s"
     )
     print(summary)
+    n_hexc = total.counters.get("harness_exceptions", 0)
+    if n_hexc:
+        print(f"WARNING {n_hexc} of {total.evaluations} cases were inconclusive because the harness raised; first:\n"
+              f"{getattr(total, 'first_harness_exception', '')}", file=sys.stderr)
+        if n_hexc > 0.05 * max(1, total.evaluations) and not by_sig:
+            errors.append(f"{n_hexc} harness exceptions in {total.evaluations} cases")
     if errors:
         print("HARNESS-ERROR", errors[0], file=sys.stderr)
-        return 2
+        return 2 if not by_sig else 1
     if by_sig:
         return 1
     min_eval = max(1, (n * nshards) // 2) if n > 0 else 1
